@@ -30,16 +30,23 @@ const BOGUS: u64 = 1 << 60;
 struct Cfg {
     fh: bool,
     hi: bool,
+    /// zero-message open / opendir in force (what the model sees): configured AND offered by the client
     no: bool,
     nod: bool,
+    /// "under a VFS": `do_import: false`, cfg.no_open / cfg.no_opendir off — the negotiated modes
+    /// then follow the client's offer alone; the embedder calls import() itself
+    uv: bool,
+    /// cfg.no_open / cfg.no_opendir configured although the client does not offer the capability
+    xo: bool,
 }
 
 impl Cfg {
     fn show(&self) -> String {
-        format!("fh:{},hi:{},no:{},nod:{}", self.fh as u8, self.hi as u8, self.no as u8, self.nod as u8)
+        format!("fh:{},hi:{},no:{},nod:{}{}{}", self.fh as u8, self.hi as u8, self.no as u8, self.nod as u8,
+            if self.uv { ",uv:1" } else { "" }, if self.xo { ",xo:1" } else { "" })
     }
     fn parse(s: &str) -> Cfg {
-        let mut c = Cfg { fh: false, hi: false, no: false, nod: false };
+        let mut c = Cfg { fh: false, hi: false, no: false, nod: false, uv: false, xo: false };
         for t in s.split(',') {
             let mut it = t.split(':');
             let k = it.next().unwrap_or("");
@@ -49,6 +56,8 @@ impl Cfg {
                 "hi" => c.hi = v,
                 "no" => c.no = v,
                 "nod" => c.nod = v,
+                "uv" => c.uv = v,
+                "xo" => c.xo = v,
                 _ => {}
             }
         }
@@ -320,10 +329,10 @@ impl World {
             root_dir: root.to_str().unwrap().to_string(),
             inode_file_handles: cfg.fh,
             use_host_ino: cfg.hi,
-            no_open: cfg.no,
-            no_opendir: cfg.nod,
+            no_open: !cfg.uv && (cfg.no || cfg.xo),
+            no_opendir: !cfg.uv && (cfg.nod || cfg.xo),
             cache_policy: CachePolicy::Always,
-            do_import: true,
+            do_import: !cfg.uv,
             ..Default::default()
         };
         let fs = PassthroughFs::<()>::new(fcfg).unwrap();
@@ -847,6 +856,10 @@ fn exec(w: &mut World, plan: &Plan, cap: Option<u32>) -> StepOut {
                 if w.cfg.nod {
                     capable |= FsOptions::ZERO_MESSAGE_OPENDIR;
                 }
+                if w.cfg.uv {
+                    // under a VFS the embedder imports the root itself
+                    let _ = w.fs.import();
+                }
                 match with_limit(cap, || w.fs.init(capable)) {
                     Ok(_) => so.res = "ok".into(),
                     Err(e) => {
@@ -1252,7 +1265,7 @@ fn main() {
             if line.trim().is_empty() {
                 continue;
             }
-            let mut cfg = Cfg { fh: false, hi: false, no: false, nod: false };
+            let mut cfg = Cfg { fh: false, hi: false, no: false, nod: false, uv: false, xo: false };
             let mut id = "0".to_string();
             let mut toks: Vec<(Plan, Option<u32>)> = vec![];
             for t in line.split(' ') {
@@ -1284,9 +1297,10 @@ fn main() {
     let mut case_no = 0usize;
     for h in 0..n {
         let cfg = if prop == "C15" {
-            Cfg { fh: h & 1 != 0, hi: (h >> 3) & 1 != 0, no: (h >> 1) & 1 != 0, nod: (h >> 2) & 1 != 0 }
+            Cfg { fh: h & 1 != 0, hi: (h >> 3) & 1 != 0, no: (h >> 1) & 1 != 0, nod: (h >> 2) & 1 != 0,
+                  uv: h >= faults && (h >> 4) % 3 == 1, xo: h >= faults && (h >> 4) % 3 == 2 }
         } else {
-            Cfg { fh: h & 1 != 0, hi: (h >> 1) & 1 != 0, no: false, nod: (h >> 2) % 4 == 3 }
+            Cfg { fh: h & 1 != 0, hi: (h >> 1) & 1 != 0, no: false, nod: (h >> 2) % 4 == 3, uv: false, xo: false }
         };
         out.stat(&format!("cfg:{}", cfg.show()));
         let with_faults = h < faults;
